@@ -1,8 +1,8 @@
 """C06 — every scheduled step executes the user's step function exactly once."""
 from pyvc.driver import check_property
-from . import async_node, async_misc
+from . import async_node, async_misc, compiled, graph_api
 
-UNITS = [u for u in async_node.UNITS + async_misc.UNITS if "C06" in u.props]
+UNITS = [u for u in async_node.UNITS + async_misc.UNITS + compiled.UNITS + graph_api.UNITS if "C06" in u.props]
 
 
 def check(tier, seed):
